@@ -118,7 +118,8 @@ impl P2PKHAddress {
         // Make sure the given Public Key matches this address.
         let verifying_address = P2PKHAddress::from_pubkey_impl(pub_key)?;
 
-        if verifying_address != *self {
+        // Compare the public key hashes only, this address may carry the prefix of another network
+        if verifying_address.1 != self.1 {
             return Err(BSVErrors::GenerateScript("Given public key does not correspond to this address".into()));
         }
 
